@@ -6,6 +6,7 @@ cache.drain_metric() or the real writer.writeForever() loop.  Everything is reco
 (call / return events stamped by one logical clock) and returned as a `Hist`.
 """
 import math
+import threading
 import pickle
 import struct
 
@@ -82,7 +83,12 @@ class World(object):
     self.bound = math.ceil(self.hard_max) if self.hard_max != float('inf') else None
 
   def _signal(self, name):
-    self.signals.append((self.clock[0], name, self.cur_store[0]))
+    # a signal belongs to the store in progress only if it is raised on the thread executing that store (the other thread
+    # may be storing too: re-injected self-metrics during a drain)
+    cur = self.cur_store[0]
+    if cur is not None and cur.get('thread') is not threading.current_thread():
+      cur = None
+    self.signals.append((self.clock[0], name, cur))
 
   def tick(self):
     self.clock[0] += 1
@@ -187,6 +193,8 @@ class World(object):
                                   where='%s:%d' % (frame.f_code.co_name, frame.f_lineno))
       if bound is not None and cache.size > bound and h.bound_violation is None:
         h.bound_violation = dict(step=sc_.step, size=cache.size, bound=bound, thread=me.name)
+      if bound is not None and not lock._locked and tot > bound and h.bound_violation is None:
+        h.bound_violation = dict(step=sc_.step, size=tot, bound=bound, thread=me.name)       # what is actually held
       if frame.f_code.co_name == 'removeHandler' and me.name == 'recv':
         # does a handler get unsubscribed while the writer thread is in the middle of dispatching the resume event?
         import sys as _sys
@@ -294,7 +302,7 @@ class World(object):
       if via is not None or getattr(self, 'store_through_pipeline', False):
         from vlib.refs import tags as _reft
         m = _reft.canonical(m)        # the pipeline files a series under its canonical name, however it was spelled
-      rec = dict(call=tick(), metric=m, ts=t, value=v, refused=False, idx=len(h.stores), sent=sent)
+      rec = dict(call=tick(), metric=m, ts=t, value=v, refused=False, idx=len(h.stores), sent=sent, thread=threading.current_thread())
       h.stores.append(rec)
       self.cur_store[0] = rec
       nsig = len(self.signals)
@@ -400,6 +408,7 @@ class World(object):
           protos.append(p)
         elif k == 'relaybuf':     # RELAY_CACHE_METRICS: a self-metric is handed to the relay manager (no destination is up)
           if state.client_manager is not None:
+            h.self_prefix = self.settings.CARBON_METRIC_PREFIX + '.'
             vcount[0] += 1
             state.client_manager.sendDatapoint('carbon.agents.self.m%d' % (vcount[0] % 3), (999900, float(vcount[0])))
         elif k == 'disconnect':   # a client goes away
@@ -476,6 +485,7 @@ class World(object):
     h.log_errors = list(self.ns.tripwires.log_errors[log_err0:])
     h.backend = list(memdb.CALL_LOG)
     h.stats = dict(self.instr.stats)
+    h.all_signals = [x[1] for x in self.signals]
     h.end_tick = self.tick()
     h.final = {m: dict(v) for m, v in cache.items()}
     h.final_size = cache.size
